@@ -7,6 +7,8 @@ import (
 	"math/rand/v2"
 	"os"
 	"path/filepath"
+	"runtime"
+	"sync/atomic"
 
 	gw "github.com/go-graphite/go-whisper"
 	wt "github.com/hnakamur/whispertool"
@@ -20,6 +22,7 @@ import (
 
 type c05View struct {
 	series [][]float64
+	serr   []bool // the fetch of this archive failed (e.g. damaged base interval)
 	raws   []model.Raw
 }
 
@@ -27,9 +30,7 @@ func c05ViewOf(db *wt.Whisper, archs []model.Arch, now int64) (*c05View, error) 
 	v := &c05View{}
 	for id, a := range archs {
 		vals, _, err := fetchWhole(db, id, a, now)
-		if err != nil {
-			return nil, err
-		}
+		v.serr = append(v.serr, err != nil)
 		raw, err := rawOf(db, id)
 		if err != nil {
 			return nil, err
@@ -42,6 +43,9 @@ func c05ViewOf(db *wt.Whisper, archs []model.Arch, now int64) (*c05View, error) 
 
 func (v *c05View) diff(w *c05View) string {
 	for a := range v.series {
+		if v.serr[a] != w.serr[a] {
+			return fmt.Sprintf("archive %d: fetch fails on one handle only", a)
+		}
 		if i, ok := sameSeries(v.series[a], w.series[a]); !ok {
 			if i < 0 {
 				return fmt.Sprintf("archive %d: %d vs %d values", a, len(v.series[a]), len(w.series[a]))
@@ -185,6 +189,31 @@ func runC05(e *Env, c *LibCase) {
 			}
 		case "abandon":
 			// covered by the per-boundary forks below
+		case "corrupt":
+			// F5: the handle is synced and closed, the base interval of a coarser
+			// archive is damaged on disk, and a fresh handle is opened (it has
+			// cached nothing but the header page, so it sees the damaged bytes
+			// like everybody else). A later update then fails half-way, after
+			// having written the finer archive.
+			off, ok := c05CorruptOffset(c.Layout, int(op.D))
+			if !ok || !synced {
+				break
+			}
+			if err := db.Sync(); err != nil {
+				e.Violate("C05.sync", "Sync failed: %v", err)
+				return
+			}
+			db.Close()
+			c05Corrupt(path, off)
+			durable = readFile(path)
+			var oerr error
+			db, oerr = wt.Open(path)
+			if oerr != nil {
+				e.Skip("open-after-damage-failed")
+				return
+			}
+			view = nil // the recorded view is void: the bytes were changed from outside
+			e.Fault("F5.base-interval-damaged-before-open")
 		}
 		// (i) the file's bytes change only during Sync
 		b := readFile(path)
@@ -229,6 +258,7 @@ func runC05(e *Env, c *LibCase) {
 			return
 		}
 		fnow := c.Clock0
+		fsynced := false
 		for j := 0; j <= k; j++ {
 			op := c.Ops[j]
 			switch op.Op {
@@ -236,9 +266,22 @@ func runC05(e *Env, c *LibCase) {
 				fnow += op.D
 			case "upd", "many":
 				c05Apply(fdb, op, fnow)
+			case "corrupt":
+				if off, ok := c05CorruptOffset(c.Layout, int(op.D)); ok && fsynced {
+					fdb.Sync()
+					fdb.Close()
+					c05Corrupt(fp, off)
+					fdb, err = wt.Open(fp)
+					if err != nil {
+						e.Skip("open-after-damage-failed")
+						return
+					}
+				}
 			case "sync":
 				fdb.Sync()
+				fsynced = true
 			case "reopen":
+				fsynced = true
 				fdb.Sync()
 				fdb.Close()
 				fdb, err = wt.Open(fp)
@@ -248,15 +291,22 @@ func runC05(e *Env, c *LibCase) {
 				}
 			}
 		}
-		if err := fdb.Close(); err != nil {
+		how := "handle closed without Sync"
+		if k%5 == 2 || k == len(c.Ops)-1 {
+			// the handle is dropped without Close and garbage-collected
+			how = "handle dropped without Close or Sync and garbage-collected"
+			fdb = nil
+			collectGarbage()
+			e.Fault("F2.handle-dropped-and-collected")
+		} else if err := fdb.Close(); err != nil {
 			e.Violate("C05.close", "Close failed: %v", err)
 			return
 		}
 		e.Fault("F2.abandon-after-op")
 		b := readFile(fp)
 		if !bytes.Equal(b, durableAt[k]) {
-			e.Violate("C05.abandon", "history replayed up to op %d (%s), handle closed without Sync: the file differs from the last synced state at offset %d",
-				k, c.Ops[k].Op, firstDiff(b, durableAt[k]))
+			e.Violate("C05.abandon", "history replayed up to op %d (%s), %s: the file differs from the last synced state at offset %d",
+				k, c.Ops[k].Op, how, firstDiff(b, durableAt[k]))
 			return
 		}
 		if viewAt[k] != nil {
@@ -578,4 +628,53 @@ func checkC06Cli(e *Env, r *cliRunner, c *CliCase) {
 	}
 	e.Probe("cli-written-file-parsed/" + c.Cmd.Kind)
 	c06Cross(e, toModelArchs(l), newRng(c.SchedSeed|1), dp, "whispertool-written", l.Method)
+}
+
+// c05CorruptOffset returns the file offset of the base interval of archive
+// 1+which%(n-1) if that offset lies beyond the first page (the header page is
+// cached at Open, later pages are read lazily).
+func c05CorruptOffset(l Layout, which int) (int64, bool) {
+	if len(l.Archs) < 2 {
+		return 0, false
+	}
+	if which < 0 {
+		which = -which
+	}
+	a := 1 + which%(len(l.Archs)-1)
+	off := int64(16 + 12*len(l.Archs))
+	for i := 0; i < a; i++ {
+		off += 12 * l.Archs[i].N
+	}
+	if off < 4096 {
+		return 0, false
+	}
+	return off, true
+}
+
+// c05Corrupt writes a base interval that is not a multiple of any step > 1.
+func c05Corrupt(path string, off int64) {
+	f, err := os.OpenFile(path, os.O_WRONLY, 0)
+	if err != nil {
+		return
+	}
+	f.WriteAt([]byte{0x3b, 0x9a, 0xca, 0x07}, off) // 1000000007
+	f.Close()
+}
+
+var gcSentinel atomic.Int64
+
+// collectGarbage runs the collector and waits (bounded) until a finalizer
+// registered just before has run, so that finalizers of objects dropped
+// earlier have had their turn as well.
+func collectGarbage() {
+	for round := 0; round < 2; round++ {
+		want := gcSentinel.Load() + 1
+		s := new([64]byte)
+		runtime.SetFinalizer(s, func(*[64]byte) { gcSentinel.Add(1) })
+		s = nil
+		for i := 0; i < 200 && gcSentinel.Load() < want; i++ {
+			runtime.GC()
+			runtime.Gosched()
+		}
+	}
 }
